@@ -12,7 +12,8 @@
 (*   eof   {dir, off}          Transmit of the rest and the FIN ; EOF(dir):*)
 (*                             only after close and with read = written    *)
 (*   cut   {note}              Cut(where); note "stall" = Stall (a transit *)
-(*                             link stops draining), followed by its cut   *)
+(*                             link stops draining), followed by its cut;  *)
+(*                             note "sibling" = SiblingTeardown            *)
 (*   accepted {dir, note}      read deadline found armed on the stream that  *)
 (*                             reads dir, right after Accept/Dial: "none"    *)
 (*   notice {dir, note}        Notice(dir): a transient unreachable notice *)
